@@ -30,3 +30,17 @@ package autoconf
 //@   loop 0 invariant[error_recorded] rangeindex >= 0 ==> lastErr != nil
 //@   ensures[fails_only_if_none_intact] err != nil && res("call:Client.listCacheFiles#0", 1) == nil ==> forall(j, 0, len(res("call:Client.listCacheFiles#0")), !intact(res("call:Client.listCacheFiles#0")[j]))
 //@   ensures[config_or_error] (err == nil) != (result0 == nil)
+
+// saveToCache: a freshly fetched configuration goes into a file of its own (named after the current
+// time), never over a file that already holds a cached version - so that a write interrupted at any
+// point leaves every earlier version intact for getCachedConfig to fall back to
+//@ func writeOwnerOnlyFile
+//@   assumed
+//@ func (*Client).saveToCache
+//@   prop C45
+//@   arith int
+//@   requires c != nil
+//@   modifies all
+//@   site[new_version_gets_its_own_file] call:writeOwnerOnlyFile#0 : arg0 == res("call:Join#0", 0) && arg1 == data
+//@   site[named_after_the_clock] call:Join#0 : len(arg0) == 2 && arg0[1] == res("call:Sprintf#0", 0)
+//@   ensures[config_write_failure_reported] res("call:writeOwnerOnlyFile#0", 0) != nil ==> err != nil
